@@ -25,23 +25,6 @@ theorem operators (elev mw err tol : ℚ) (n mm : ℤ) :
   simp only [decide_eq_true_eq, ge_iff_le]
   trivial
 
-/-- source text of `_match_all` and `fastmatch` (what is computed from what) -/
-theorem wiring :
-    Gen.ma_indices = "get_indices(point_selection.refineds, zero, a, b)" ∧
-    Gen.ma_rounded = "np.around(indices)" ∧
-    Gen.ma_index_diffs = "np.absolute(indices - rounded)" ∧
-    Gen.ma_diffs = "index_diffs * (np.linalg.norm(a), np.linalg.norm(b))" ∧
-    Gen.ma_scaled_diffs = "diffs / np.maximum(1, np.abs(indices)) ** 0.5" ∧
-    Gen.ma_errors = "np.linalg.norm(scaled_diffs, axis=1)" ∧
-    Gen.ma_matched_indices = "rounded[matched_selector].astype(int)" ∧
-    Gen.ma_new_selector = "point_selection.new_selector(matched_selector)" ∧
-    Gen.new_selector_body = "new_selector = np.copy(self.selector) ; new_selector[self.selector] = selector ; return new_selector" ∧
-    Gen.match_all_tail = "Match.from_point_selection(point_selection, selector=new_selector, zero=zero, a=a, b=b, indices=matched_indices)" ∧
-    Gen.fm_handlers = "np.linalg.LinAlgError -> return Match.invalid(corr)" ∧
-    Gen.fm_try_body = "match1 = self._match_all(point_selection=selection, zero=zero, a=a, b=b) ; if len(match1) >= self.min_match: match1 = match1.weighted_optimize() else: raise np.linalg.LinAlgError('Not enough matched points') ; match2 = self._match_all(point_selection=selection, zero=match1.zero, a=match1.a, b=match1.b) ; return match2.weighted_optimize()" ∧
-    Gen.invalid_body = "nanvec = np.array([np.nan, np.nan]) ; return cls(correlation_result=correlation_result, selector=np.zeros(len(correlation_result), dtype=bool), zero=nanvec, a=nanvec, b=nanvec, indices=np.array([]))" := by
-  refine ⟨rfl, rfl, rfl, rfl, rfl, rfl, rfl, rfl, rfl, rfl, rfl, rfl, rfl⟩
-
 /-- rounding an integer leaves it unchanged -/
 theorem round_int (k : ℤ) : roundHalfEven (k : ℚ) = k := by
   unfold roundHalfEven
